@@ -238,7 +238,30 @@ pub fn replay(file: &str, prop: &str, out_dir: &str) -> Value {
         let res = catch_unwind(AssertUnwindSafe(|| {
             let mut bad: Option<(String, Value)> = None;
             let (mut runs, mut cmp, mut drift) = (0u64, 0u64, 0u64);
-            if let Some(rows) = b.get("evs") {
+            if let Some(eops) = b.get("eops") {
+                // ---- ElementWriter: operations + finishing call at depth d of a plain / indenting writer, sync and async
+                let eops = eops.as_array().unwrap();
+                for c in b["cases"].as_array().unwrap() {
+                    let (name, fin, d) = (s(&c[0]), c[1].as_array().unwrap(), c[2].as_u64().unwrap() as usize);
+                    let indent = if c[3].as_u64() == Some(1) { Some((c[4].as_u64().unwrap() as u8, c[5].as_u64().unwrap() as usize)) } else { None };
+                    let want = bytes(&c[6]);
+                    for is_async in [false, true] {
+                        for max in [usize::MAX, 3] {
+                            let got = elem_run(&name, eops, fin, d, indent, is_async, max);
+                            runs += 1;
+                            cmp += 1;
+                            if got != want && elem_same_modulo_ws(&got, &want) {
+                                // only the amount / kind of white space between attributes or before markup differs: tag I
+                                drift += 1;
+                            } else if got != want && bad.is_none() {
+                                bad = Some(("element-writer-output".into(), json!({"name": name, "fin": fin, "depth": d, "indent": indent.map(|(c, n)| json!([c, n])),
+                                    "async": is_async, "max_bytes_per_write": if max == usize::MAX { json!(null) } else { json!(max) },
+                                    "expected": String::from_utf8_lossy(&want), "actual": String::from_utf8_lossy(&got)})));
+                            }
+                        }
+                    }
+                }
+            } else if let Some(rows) = b.get("evs") {
                 // ---- C19
                 let evs: Vec<Event<'static>> = rows.as_array().unwrap().iter().map(|r| event_of_row(r[0].as_str().unwrap(), &bytes(&r[1]))).collect();
                 let plain = write_sync(&evs, None);
@@ -254,7 +277,14 @@ pub fn replay(file: &str, prop: &str, out_dir: &str) -> Value {
                     runs += 2;
                     cmp += 3;
                     if got != bytes(&o[2]) {
-                        bad = bad.or(Some(("indented-output".into(), json!({"ch": ch, "size": size, "expected": String::from_utf8_lossy(&bytes(&o[2])), "actual": String::from_utf8_lossy(&got)}))));
+                        // C19 fixes WHERE white space may be inserted, not how much: an output that differs from the machine's
+                        // only in the amount of indentation is drift (tag I); anything else is a violation
+                        let kinds: Vec<&str> = rows.as_array().unwrap().iter().map(|r| r[0].as_str().unwrap()).collect();
+                        if indent_conforms(&evs, &kinds, &got, ch) {
+                            drift += 1;
+                        } else {
+                            bad = bad.or(Some(("indented-output".into(), json!({"ch": ch, "size": size, "expected": String::from_utf8_lossy(&bytes(&o[2])), "actual": String::from_utf8_lossy(&got)}))));
+                        }
                     }
                     if got_async != got {
                         bad = bad.or(Some(("async-differs-from-sync".into(), json!({"ch": ch, "size": size}))));
@@ -280,6 +310,20 @@ pub fn replay(file: &str, prop: &str, out_dir: &str) -> Value {
                 if out_async != out {
                     bad = Some(("async-differs-from-sync".into(), json!({})));
                 }
+                // Writer::write_bom first: exactly the three bytes of the mark precede the same output, and the reader
+                // (which removes the mark) gives the same events
+                {
+                    let mut w = Writer::new(Vec::new());
+                    w.write_bom().unwrap();
+                    for e in &evs {
+                        w.write_event(e.borrow()).unwrap();
+                    }
+                    let with_bom = w.into_inner();
+                    cmp += 1;
+                    if with_bom.get(..3) != Some(&[0xEF, 0xBB, 0xBF][..]) || with_bom[3..] != out[..] || read_back(&with_bom) != read_back(&out) {
+                        bad = bad.or(Some(("write_bom".into(), json!({"written": String::from_utf8_lossy(&with_bom)}))));
+                    }
+                }
                 match read_back(&out) {
                     Ok(l) => {
                         if Value::Array(l.clone()) != b["logical"] {
@@ -300,7 +344,7 @@ pub fn replay(file: &str, prop: &str, out_dir: &str) -> Value {
             }
             Err(_) => bad = Some(("panic".into(), json!({}))),
         }
-        let len = b.get("evs").or(b.get("ops")).and_then(|x| x.as_array()).map(|a| a.len()).unwrap_or(0);
+        let len = b.get("evs").or(b.get("ops")).or(b.get("eops")).and_then(|x| x.as_array()).map(|a| a.len()).unwrap_or(0);
         if len >= 2 {
             nontriv += 1;
         }
@@ -323,6 +367,103 @@ pub fn replay(file: &str, prop: &str, out_dir: &str) -> Value {
         d.insert("writer-output-bytes".into(), json!(drift));
     }
     json!({"behaviours": n, "runs": runs, "comparisons": cmp, "nontrivial": nontriv, "violations": viol, "samples": samples, "drift": d})
+}
+
+/// Two outputs of the element-builder legs are the same up to white space outside content: both read back (real reader,
+/// attributes parsed and unescaped, whitespace-only text dropped) as the same logical events.
+fn elem_same_modulo_ws(a: &[u8], b: &[u8]) -> bool {
+    let drop = |v: Result<Vec<Value>, String>| v.map(|l| l.into_iter().filter(|x| !(x[0] == "Text" && bytes(&x[1]).iter().all(|c| matches!(c, b' ' | b'\t' | b'\r' | b'\n')))).collect::<Vec<_>>());
+    let strip = |x: &[u8]| -> Vec<u8> { x.iter().cloned().filter(|c| !matches!(c, b' ' | b'\t' | b'\r' | b'\n')).collect() };
+    match (drop(read_back(a)), drop(read_back(b))) {
+        (Ok(x), Ok(y)) => x == y && strip(a) == strip(b),
+        _ => false,
+    }
+}
+
+/// C19, literally (Writer!IndentConforms): `out` is the plain rendering of the events with, possibly, a line break followed
+/// by a run of the indent character inserted immediately before markup that is not the first event and does not follow
+/// Text or CData - and nothing else.
+fn indent_conforms(evs: &[Event<'static>], kinds: &[&str], out: &[u8], ch: u8) -> bool {
+    let wrapped = |k: &str| matches!(k, "Start" | "End" | "Empty" | "Comment" | "Decl" | "PI" | "DocType");
+    let mut pos = 0usize;
+    for (i, e) in evs.iter().enumerate() {
+        let piece = {
+            let mut w = Writer::new(Vec::new());
+            w.write_event(e.borrow()).unwrap();
+            w.into_inner()
+        };
+        let allowed = i > 0 && wrapped(kinds[i]) && !matches!(kinds[i - 1], "Text" | "CData");
+        if allowed && out.get(pos) == Some(&b'\n') {
+            pos += 1;
+            while out.get(pos) == Some(&ch) {
+                pos += 1;
+            }
+        }
+        if !out[pos.min(out.len())..].starts_with(&piece) {
+            return false;
+        }
+        pos += piece.len();
+    }
+    pos == out.len()
+}
+
+/// Create an element at depth `d` of a (plain or indenting) writer over a sink accepting `max` bytes per call, apply the
+/// ElementWriter operations, finish it, close the `d` elements; returns the bytes that reached the sink.
+fn elem_run(name: &str, eops: &[Value], fin: &[Value], d: usize, indent: Option<(u8, usize)>, is_async: bool, max: usize) -> Vec<u8> {
+    use quick_xml::writer::ElementWriter;
+    fn ops<'a, W>(mut ew: ElementWriter<'a, W>, eops: &[Value]) -> ElementWriter<'a, W> {
+        for op in eops {
+            let op = op.as_array().unwrap();
+            ew = match op[0].as_str().unwrap() {
+                "attr" => ew.with_attribute((s(&op[1]).as_str(), s(&op[2]).as_str())),
+                "attrs" => {
+                    let ps = pairs(&op[1]);
+                    ew.with_attributes(ps.iter().map(|(k, v)| (k.as_str(), v.as_str())))
+                }
+                _ => ew.new_line(),
+            };
+        }
+        ew
+    }
+    let sink = crate::env::ShortSink::new(max);
+    let mut w = match indent {
+        None => Writer::new(sink),
+        Some((c, n)) => Writer::new_with_indent(sink, c, n),
+    };
+    let kind = fin[0].as_str().unwrap();
+    let payload = if fin.len() > 1 { s(&fin[1]) } else { String::new() };
+    if is_async {
+        block_on(async {
+            for _ in 0..d {
+                w.write_event_async(Event::Start(BytesStart::new("r"))).await.unwrap();
+            }
+            let ew = ops(w.create_element(name), eops);
+            match kind {
+                "empty" => { ew.write_empty_async().await.unwrap(); }
+                "text" => { ew.write_text_content_async(BytesText::new(&payload)).await.unwrap(); }
+                "cdata" => { ew.write_cdata_content_async(BytesCData::new(payload.as_str())).await.unwrap(); }
+                _ => { ew.write_pi_content_async(BytesPI::new(payload.as_str())).await.unwrap(); }
+            }
+            for _ in 0..d {
+                w.write_event_async(Event::End(BytesEnd::new("r"))).await.unwrap();
+            }
+        });
+    } else {
+        for _ in 0..d {
+            w.write_event(Event::Start(BytesStart::new("r"))).unwrap();
+        }
+        let ew = ops(w.create_element(name), eops);
+        match kind {
+            "empty" => { ew.write_empty().unwrap(); }
+            "text" => { ew.write_text_content(BytesText::new(&payload)).unwrap(); }
+            "cdata" => { ew.write_cdata_content(BytesCData::new(payload.as_str())).unwrap(); }
+            _ => { ew.write_pi_content(BytesPI::new(payload.as_str())).unwrap(); }
+        }
+        for _ in 0..d {
+            w.write_event(Event::End(BytesEnd::new("r"))).unwrap();
+        }
+    }
+    w.into_inner().out
 }
 
 pub fn rerun(path: &str) -> bool {
